@@ -20,7 +20,8 @@ META = {
         "a checkpoint, through chains three deep and from executed payloads; services created before start, by the "
         "driver, inside payloads, and as replacements for finished, garbage-collected services within one polling "
         "cycle; payloads that wait on a gate opened only after adopt returned (adopt must not wait for them); "
-        "kind=window: adoption from outside threads and from inside cleaning-up payloads while a trio payload with "
+        "kind=idle: nothing keeps the asyncio loop busy and asyncio payloads are adopted from outside, from a thread payload and "
+        "from a thread payload that drives a private event loop; kind=window: adoption from outside threads and from inside cleaning-up payloads while a trio payload with "
         "long shielded cleanup keeps the runtime in its shutdown phase. Non-trivial = >= 3 adoptions judged."
     ),
     "assumptions": [
@@ -36,8 +37,8 @@ ARGS = [([], {}), ([1], {}), ([], {"k": 1}), ([1, "two"], {"k": 1}), ([[1, 2]], 
 def plan(tier, seed):
     if tier == "thorough":
         return [dict(seed=seed, shard=i, n=70, kind="steady") for i in range(12)] + [dict(seed=seed, shard="w%d" % i, n=40, kind="window") for i in range(4)] + \
-            [dict(seed=seed, shard="known", n=1, kind="known")]
-    return [dict(seed=seed, shard=i, n=6, kind="steady") for i in range(12)] + [dict(seed=seed, shard="w%d" % i, n=5, kind="window") for i in range(4)] + \
+            [dict(seed=seed, shard="known", n=1, kind="known")] + [dict(seed=seed, shard="idle%d" % i, n=20, kind="idle") for i in range(2)]
+    return [dict(seed=seed, shard="idle", n=6, kind="idle")] + [dict(seed=seed, shard=i, n=6, kind="steady") for i in range(12)] + [dict(seed=seed, shard="w%d" % i, n=5, kind="window") for i in range(4)] + \
         [dict(seed=seed, shard="known", n=1, kind="known")]
 
 
@@ -179,6 +180,41 @@ def gen_window(rnd, spec):
     return {"watchdog": 40, "inject": common.inject_conf(rnd, 0.7), "generations": [gen], "meta": {"kind": "window", "window": expected_window}}
 
 
+def gen_idle(rnd, spec):
+    """Nothing keeps the asyncio loop busy: a submission must wake it up by itself - also when the submitting
+    thread drives an event loop of its own."""
+    gen = {"accept_delay": 0.05, "payloads": [], "services": [], "grace": 0.2}
+    expected = []
+    gen["payloads"].append({"id": "tblock", "flavour": "trio", "when": "queued", "program": [["block"]], "cleanup": {"kind": "none"}})
+    expected.append("tblock")
+    script = [["wait_running", 10], ["sleep", 0.15]]
+    for i in range(rnd.randint(1, 3)):
+        kids = []
+        for j in range(rnd.randint(1, 3)):
+            kid = leaf(rnd, "idle%d_%d" % (i, j), flavour="asyncio")
+            kid["program"] = rnd.choice([[["sleep", 0.01]], [["block"]]])
+            gen["payloads"].append(kid)
+            kids.append(kid["id"])
+            expected.append(kid["id"])
+        how = rnd.choice(["foreign_loop", "foreign_loop", "outside", "thread"])
+        if how == "foreign_loop":
+            gen["payloads"].append({"id": "foreign%d" % i, "flavour": "threading", "cleanup": {"kind": "none"},
+                                    "program": [["sleep", 0.05], ["private_loop_adopt", kids, 0.3]]})
+            script.append(["adopt", "foreign%d" % i])
+            expected.append("foreign%d" % i)
+        elif how == "thread":
+            gen["payloads"].append({"id": "tcar%d" % i, "flavour": "threading", "cleanup": {"kind": "none"},
+                                    "program": [["sleep", 0.05]] + [["adopt", k] for k in kids]})
+            script.append(["adopt", "tcar%d" % i])
+            expected.append("tcar%d" % i)
+        else:
+            script += [["adopt", k] for k in kids]
+        script.append(["sleep", 0.2])
+    script += [["sleep", 0.6], ["quiesce"]]
+    gen["script"] = script
+    return {"watchdog": 30, "inject": common.inject_conf(rnd, 0.5), "generations": [gen], "meta": {"kind": "steady", "expected": expected, "idle": True}}
+
+
 def gen_known(rnd, spec):
     """The recorded finding: adopt(flavour=trio) on the asyncio thread while the trio thread is blocked in execute."""
     gen = {"accept_delay": 0.03, "payloads": [], "services": [], "grace": 0.2}
@@ -265,6 +301,8 @@ def judge(case, run, result):
             if pid.startswith("svc:"):
                 result.count("services_started_exactly_once")
         result.count("adoptions_judged", len(case["meta"]["expected"]))
+        if case["meta"].get("idle"):
+            result.count("scenarios_with_idle_asyncio_loop")
         if run.of("gate-passed", gen=0):
             result.count("gated_adopts_returned_before_payload_released", len(run.of("gate-passed", gen=0)))
         if any(p["id"].startswith("burst") for p in gen["payloads"]):
@@ -306,7 +344,7 @@ def execute(case, result):
 def run_shard(spec):
     result = core.Result()
     only = spec.get("only_case")
-    gen = {"steady": gen_steady, "window": gen_window, "known": gen_known}[spec["kind"]]
+    gen = {"steady": gen_steady, "window": gen_window, "known": gen_known, "idle": gen_idle}[spec["kind"]]
     for i in range(spec["n"]):
         if only is not None and i != only:
             continue
@@ -322,7 +360,7 @@ def run_shard(spec):
 
 def finish(total, tier):
     need = ["adoptions_judged", "starts_exactly_once_asyncio", "starts_exactly_once_trio", "starts_exactly_once_threading", "services_started_exactly_once",
-            "gated_adopts_returned_before_payload_released", "scenarios_with_bursts", "scenarios_with_replaced_services",
+            "gated_adopts_returned_before_payload_released", "scenarios_with_idle_asyncio_loop", "scenarios_with_bursts", "scenarios_with_replaced_services",
             "window_adopts_judged", "adopts_in_shutdown_window_inside", "adopts_in_shutdown_window_outside"]
     for name in need:
         if not total.counters.get(name) and not total.violations:
